@@ -1080,7 +1080,14 @@ impl MutableArchive {
         let mut index = table_offset & (table_size - 1);
 
         // Linear probing to find empty or deleted slot
+        let mut probes = 0u32;
         loop {
+            // Every slot has been visited: the table is full
+            if probes >= table_size {
+                return Err(Error::hash_table("Hash table is full"));
+            }
+            probes += 1;
+
             let entry = hash_table.get_mut(index as usize).ok_or_else(|| {
                 Error::InvalidFormat("Hash table index out of bounds".to_string())
             })?;
